@@ -29,13 +29,20 @@ type PropDef struct {
 	Select map[string][]string `json:"select"`
 }
 
-func (p *PropDef) selected(unit, obl string) bool {
+func (p *PropDef) selected(unit string, o *Obl) bool {
 	pats, ok := p.Select[unit]
 	if !ok || len(pats) == 0 {
-		return true
+		pats, ok = p.Select["*"]
+		if !ok || len(pats) == 0 {
+			return true
+		}
 	}
 	for _, s := range pats {
-		if strings.Contains(obl, s) {
+		if strings.HasPrefix(s, "kind:") {
+			if o.Kind == s[5:] {
+				return true
+			}
+		} else if strings.Contains(o.Name, s) {
 			return true
 		}
 	}
@@ -170,7 +177,7 @@ func cmdCheck(args []string) int {
 		}
 		units = append(units, un)
 		for _, o := range un.obls {
-			if (o.Smoke && strings.HasSuffix(o.Name, "smoke:requires")) || (!o.Smoke && kindWanted(p, o.Kind) && p.selected(name, o.Name)) {
+			if (o.Smoke && strings.HasSuffix(o.Name, "smoke:requires")) || (!o.Smoke && kindWanted(p, o.Kind) && p.selected(name, o)) {
 				jobs = append(jobs, &job{un: un, obl: o})
 			}
 		}
@@ -184,12 +191,6 @@ func cmdCheck(args []string) int {
 
 	baseline := loadBaseline(id)
 	known := loadKnown()
-	knownFor := map[string]KnownFinding{}
-	for _, k := range known.Findings {
-		if k.Property == id {
-			knownFor[k.Obligation] = k
-		}
-	}
 	var reports []oblReport
 	var failed, undecided, discharged []*job
 	vacuous := []string{}
@@ -250,8 +251,21 @@ func cmdCheck(args []string) int {
 	violations := 0
 	var knownHit []string
 	replayDir := filepath.Join(outDir, "replay")
+	matchKnown := func(name string) (KnownFinding, bool) {
+		for _, k := range known.Findings {
+			if k.Property == id && (k.Obligation == name || strings.HasPrefix(name, k.Obligation)) {
+				return k, true
+			}
+		}
+		return KnownFinding{}, false
+	}
+	for _, j := range undecided {
+		if k, ok := matchKnown(j.obl.Name); ok {
+			knownHit = append(knownHit, fmt.Sprintf("KNOWN-FINDING: property=%s %s: %s", id, j.obl.Name, k.What))
+		}
+	}
 	for _, j := range failed {
-		if k, ok := knownFor[j.obl.Name]; ok {
+		if k, ok := matchKnown(j.obl.Name); ok {
 			knownHit = append(knownHit, fmt.Sprintf("KNOWN-FINDING: property=%s %s: %s", id, j.obl.Name, k.What))
 			continue
 		}
